@@ -477,6 +477,19 @@ func genDLarge(r *rng, dd bool, id string, cnt counters, emit func(line, out str
 			}
 			do(fmt.Sprintf("wblk %d:%d:%d:0 %s", ll, m, o, pay(ll+tl)))
 			budget -= ll + m + tl
+		case x < 83:
+			// a malformed sequence while a lot of decoded data may be pending: offset 0, offset beyond the
+			// window / the data written, LitLen beyond the literals
+			bad := r.pick(0, 1, 2)
+			switch bad {
+			case 0:
+				do(fmt.Sprintf("wblk 2:5:0:0 %s", pay(2)))
+			case 1:
+				do(fmt.Sprintf("wblk 1:9:%d:0 %s", r.pick(W+1, len(e.written)+2, 1<<31), pay(1)))
+			default:
+				do(fmt.Sprintf("wblk 0:3:1:0;%d:4:1:0 %s", r.pick(5, 70000), pay(3)))
+			}
+			cnt.inc("d.large.malformed")
 		case x < 95:
 			if dd {
 				do("flush")
